@@ -192,14 +192,20 @@ def ramp_idiom(fn):
     """hydrogen_bond_energy: value = 1 below cutoffs[0], 0 above cutoffs[1],
     else 1 - (d - c0)/(c1 - c0): in [0, 1] whenever c0 < c1 (C18.R7).  Returns
     the name of the variable that holds it, or None."""
+    def _ordered(test):
+        """(small, large) texts of an ordering comparison; the loader has
+        already turned every '>' into '<'."""
+        if isinstance(test, ast.Compare) and len(test.ops) == 1 and isinstance(test.ops[0], (ast.Lt, ast.LtE)):
+            return norm(test.left).replace(' ', ''), norm(test.comparators[0]).replace(' ', '')
+        return None
     for node in walk_no_nested(fn):
         if isinstance(node, ast.If) and len(node.orelse) == 1 and isinstance(node.orelse[0], ast.If):
             inner = node.orelse[0]
-            t1, t2 = norm(node.test).replace(' ', ''), norm(inner.test).replace(' ', '')
-            if '<' not in t1 or '>' not in t2:
+            o1, o2 = _ordered(node.test), _ordered(inner.test)
+            if o1 is None or o2 is None:
                 continue
-            d, c0 = t1.split('<')
-            d2, c1 = t2.split('>')
+            d, c0 = o1          # d < c0
+            c1, d2 = o2         # c1 < d
             if d != d2 or len(effective(node.body)) != 1 or len(effective(inner.body)) != 1 \
                     or len(effective(inner.orelse)) != 1:
                 continue
@@ -641,24 +647,25 @@ def run(ctx):
     flt = [n for n in walk_no_nested(iad) if isinstance(n, ast.If)
            and 'UNK_MIN_VALUE' in norm(n.test)]
     def symmetric_threshold(test):
-        """name X when the test is |X| > UNK_MIN_VALUE in either spelling"""
-        if isinstance(test, ast.Compare) and isinstance(test.ops[0], (ast.Gt, ast.GtE)) \
-                and isinstance(test.left, ast.Call) and call_name(test.left) == 'abs' \
-                and norm(test.comparators[0]) == 'UNK_MIN_VALUE':
-            return norm(test.left.args[0])
+        """name X when the test is UNK_MIN_VALUE < |X| in either spelling (the
+        loader has oriented every ordering comparison with '<')"""
+        if isinstance(test, ast.Compare) and len(test.ops) == 1 and isinstance(test.ops[0], (ast.Lt, ast.LtE)) \
+                and isinstance(test.comparators[0], ast.Call) and call_name(test.comparators[0]) == 'abs' \
+                and norm(test.left) == 'UNK_MIN_VALUE':
+            return norm(test.comparators[0].args[0])
         if isinstance(test, ast.BoolOp) and isinstance(test.op, ast.Or) and len(test.values) == 2 \
-                and all(isinstance(v, ast.Compare) and len(v.ops) == 1 for v in test.values):
+                and all(isinstance(v, ast.Compare) and len(v.ops) == 1
+                        and isinstance(v.ops[0], (ast.Lt, ast.LtE)) for v in test.values):
             forms = set()
             names = set()
             for v in test.values:
-                l, op, r = v.left, v.ops[0], v.comparators[0]
-                if isinstance(op, (ast.Lt, ast.LtE)):      # normalise to X > c
-                    pass
-                names.add(norm(l))
-                if isinstance(op, (ast.Gt, ast.GtE)) and norm(r) == 'UNK_MIN_VALUE':
+                l, r = norm(v.left).replace(' ', ''), norm(v.comparators[0]).replace(' ', '')
+                if l == 'UNK_MIN_VALUE':            # UNK_MIN_VALUE < X
                     forms.add('above')
-                if isinstance(op, (ast.Lt, ast.LtE)) and norm(r).replace(' ', '') == '-UNK_MIN_VALUE':
+                    names.add(r)
+                elif r == '-UNK_MIN_VALUE':         # X < -UNK_MIN_VALUE
                     forms.add('below')
+                    names.add(l)
             if forms == {'above', 'below'} and len(names) == 1:
                 return names.pop()
         return None
